@@ -265,6 +265,10 @@ def get_app(c):
     def mk_after(j):
         def after(req, res):
             req.environ["verif.trace"].append("a%d" % j)
+            from poorwsgi.response import BaseResponse
+            if not isinstance(res, BaseResponse):
+                # an after hook is handed a response object, never the raw value the previous hook returned
+                req.environ["verif.trace"].append("raw%d" % j)
             return act(req.environ["verif.prog"].get("a%d" % j, "same"), res)
         after.__name__ = "after%d" % j
         return after
